@@ -115,24 +115,44 @@ def run(ctx, component="strategy"):
 
 
 def filters(ctx, component):
-    """The error filters (retries.py:74-104) are outside the model: compared with an independent re-statement."""
+    """The error filters (retries.py:74-104): the real strategy's retry/no-retry decision vs `Strategy.retryable` (plain
+    strings are substring tests - also when they contain regex metacharacters; a compiled pattern is represented in the
+    model by the outcome of its search), and vs an independent re-statement in Python."""
     from aws_durable_execution_sdk_python.retries import RetryStrategyConfig, create_retry_strategy
 
-    msgs = ["timeout", "Connection reset", "throttled: slow down", "", "boom"]
-    pats = [None, [], ["timeout"], [re.compile(r"^Conn")], ["x", re.compile("thrott")]]
+    msgs = ["timeout", "Connection reset", "throttled: slow down", "", "boom", "upstream said: HTTP 503 (Service Unavailable)",
+            "model v105 done", "model v1.5 done", "a+b=c", "aab=c", "[x] failed", "x failed", "cost $5", "a|b", "^start", "start",
+            "dot.", "dots", "back\\slash", "(", "*", "r\u00e9sum\u00e9 missing"]
+    pats = [None, [], ["timeout"], [re.compile(r"^Conn")], ["x", re.compile("thrott")], ["HTTP 503 (Service Unavailable)"], ["v1.5"],
+            ["a+b"], ["[x]"], ["$5"], ["a|b", "zzz"], ["^start"], ["dot."], ["back\\slash"], ["("], ["*"], [""], ["r\u00e9sum\u00e9"]]
     types = [None, [], [ValueError], [KeyError, OSError]]
+    cases = []
     for m in msgs:
         for p in pats:
             for t in types:
                 for exc in (ValueError, KeyError, RuntimeError):
                     e = exc(m)
-                    cfg = RetryStrategyConfig(max_attempts=3, retryable_errors=p, retryable_error_types=t)
-                    got = create_retry_strategy(cfg)(e, 1).should_retry
+                    try:
+                        cfg = RetryStrategyConfig(max_attempts=3, retryable_errors=p, retryable_error_types=t)
+                        got = create_retry_strategy(cfg)(e, 1).should_retry
+                    except Exception as ex:  # noqa: BLE001
+                        got = "raised " + type(ex).__name__
                     pl = p if p is not None else ([re.compile(".*")] if t is None else [])
                     want = any((q.search(str(e)) is not None) if isinstance(q, re.Pattern) else (q in str(e)) for q in pl) or any(isinstance(e, tt) for tt in (t or []))
                     ctx.evaluations += 1
+                    case = {"msg": m, "patterns": str(p), "types": str(t), "exc": exc.__name__}
                     if got != want:
-                        ctx.violate("C12.error_filter", {"msg": m, "patterns": str(p), "types": str(t), "exc": exc.__name__}, {"got": got, "want": want}, component)
+                        ctx.violate("C12.error_filter", case, {"got": got, "want": want}, component)
+                    q = {"c": "strategy.retryable", "msg": str(e),
+                         "filters": None if p is None else [{"text": f} if isinstance(f, str) else {"hit": f.search(str(e)) is not None} for f in p],
+                         "types": None if t is None else [isinstance(e, tt) for tt in t]}
+                    cases.append((case, q, got))
+    if ctx.driver and ctx.driver.ok:
+        for (case, q, got), a in zip(cases, ctx.driver.ask_many([q for _, q, _ in cases])):
+            if a.get("r") != got:
+                ctx.disagree(component, dict(case, query=q), got, a, "retry filter decision differs from Strategy.retryable")
+            else:
+                ctx.traces_validated += 1
 
 
 def boundary(ctx, component):
